@@ -1,5 +1,6 @@
 import TemplVerif.Model.SourceMap
 import TemplVerif.Proofs.Pos
+import TemplVerif.Proofs.Symbols
 /-
 C07 — the source map relates every Go expression byte to the same byte in generated code.
 "Byte position" is read as rune-start position (the tables are keyed per rune; an offset inside a multi-byte
@@ -48,5 +49,32 @@ theorem C07_no_clobber (sm : SM) (v1 v2 : Bytes) (s1 t1 s2 t2 : Pos) (hv2 : Proo
 /-- Non-vacuity: a two-line expression with a multi-byte character, preceded by multi-byte text on its line. -/
 example : exprMapped [195, 169, 123, 97, 195, 169, 10, 98, 125] ([0, 0, 0, 0, 0] ++ [97, 195, 169, 10, 98])
     (add {} [97, 195, 169, 10, 98] ⟨3, 0, 3⟩ ⟨5, 0, 5⟩) [97, 195, 169, 10, 98] ⟨3, 0, 3⟩ ⟨5, 0, 5⟩ = true := by decide
+
+/-! ## Symbol ranges of top-level declarations -/
+
+/-- Every symbol range recorded by `AddSymbolRange` is found again from the start of its source range - for ANY
+    number of top-level nodes, also several starting on one line - provided no two start at the same (line, column),
+    which distinct nodes of a file never do. -/
+theorem C07_symbols_found (adds : List (Rng × Rng)) (h : (adds.map fun a => Proofs.Symbols.key a.1).Nodup) :
+    ∀ a ∈ adds, symTarget (addSymbols adds) a.1.from_.line a.1.from_.col = some a.2 :=
+  Proofs.Symbols.target_found adds h
+
+/-- … and from the start of the generated declaration back to the source range. -/
+theorem C07_symbols_back (adds : List (Rng × Rng)) (h : (adds.map fun a => Proofs.Symbols.key a.2).Nodup) :
+    ∀ a ∈ adds, symSource (addSymbols adds) a.2.from_.line a.2.from_.col = some a.1 :=
+  Proofs.Symbols.source_found adds h
+
+/-- Nothing is found that was not recorded. -/
+theorem C07_symbols_sound (adds : List (Rng × Rng)) (line col : Nat) (r : Rng)
+    (h : symTarget (addSymbols adds) line col = some r) :
+    ∃ a ∈ adds, a.1.from_.line = line ∧ a.1.from_.col = col ∧ a.2 = r :=
+  Proofs.Symbols.target_sound adds line col r h
+
+/-- Non-vacuity: two templates starting on one source line (columns 0 and 22) both keep their ranges. -/
+example :
+    let a : Rng × Rng := (⟨⟨168, 19, 0⟩, ⟨189, 19, 21⟩⟩, ⟨⟨2531, 75, 0⟩, ⟨3575, 103, 0⟩⟩)
+    let b : Rng × Rng := (⟨⟨190, 19, 22⟩, ⟨211, 19, 43⟩⟩, ⟨⟨3575, 103, 0⟩, ⟨4619, 131, 0⟩⟩)
+    symTarget (addSymbols [a, b]) 19 0 = some a.2 ∧ symTarget (addSymbols [a, b]) 19 22 = some b.2 ∧
+    symSource (addSymbols [a, b]) 75 0 = some a.1 := by decide
 
 end TemplVerif.Props.C07
